@@ -418,13 +418,26 @@ func runEnvFirst(p *Program, r *RuleResult) {
 						arg = a
 					}
 				}
-				mk, isCall := origin(arg).(*ssa.Call)
-				if arg == nil || !isCall {
+				if arg == nil {
 					okAll, why = false, "the environment passed to the judgement is not built in this function"
 					continue
 				}
+				// built here, or handed in by the driver which built it before this phase
+				bview, before, val := view, ssa.Instruction(j), origin(arg)
+				if prm, isPrm := val.(*ssa.Parameter); isPrm {
+					for i, q := range fn.Params {
+						if q == prm && i < len(ph.Common().Args) {
+							bview, before, val = p.View(drv.Driver), ph, origin(ph.Common().Args[i])
+						}
+					}
+				}
+				mk, isCall := val.(*ssa.Call)
+				if !isCall {
+					okAll, why = false, "the environment passed to the judgement is built neither in this function nor by the driver before this phase"
+					continue
+				}
 				// built outside every loop, before the judgement, from the whole slice
-				for _, l := range view.Loops() {
+				for _, l := range bview.Loops() {
 					if l.Body[mk.Block()] {
 						okAll, why = false, "the environment is (re)built inside the per-declaration loop"
 					}
@@ -439,7 +452,7 @@ func runEnvFirst(p *Program, r *RuleResult) {
 				if !whole {
 					okAll, why = false, "the environment is not built from the whole declaration slice of the global environment"
 				}
-				if !view.passedBefore(j, func(in ssa.Instruction) bool { return in == ssa.Instruction(mk) }) {
+				if !bview.passedBefore(before, func(in ssa.Instruction) bool { return in == ssa.Instruction(mk) }) {
 					okAll, why = false, "a judgement can run before the environment is built"
 				}
 			}
